@@ -20,6 +20,7 @@ mod rx_build;
 mod rx_import;
 mod rx_lexer;
 mod rx_syntax;
+mod rx_serial;
 
 fn main() {
     let args: Vec<String> = std::env::args().collect();
@@ -46,6 +47,7 @@ fn main() {
         "import" => rx_import::run(&args[2], &args[3], &opts),
         "lexer" => rx_lexer::run(&args[2], &args[3], &opts),
         "syntax" => rx_syntax::run(&args[2], &args[3], &opts),
+        "serial" => rx_serial::run(&args[2], &args[3], &opts),
         "cache" => rx_cache::run(&args[2], &args[3], &opts),
         "widths" => rx_font::run_widths(&args[2], &args[3], &opts),
         "cmap" => rx_font::run_cmap(&args[2], &args[3], &opts),
